@@ -986,10 +986,24 @@ func ConstructorFunction(name string) ZlispUserFunction {
 
 	return func(env *Zlisp, _ string, args []Sexp) (Sexp, error) {
 		switch name {
-		case "array":
-			return env.NewSexpArray(args), nil
-		case "list":
-			return MakeList(args), nil
+		case "array", "list":
+			// an element written as a dot path (h.a) is that element's
+			// value, as seen where the array or list is built; kept as a
+			// path it was looked up again wherever the container ended
+			// up, e.g. inside a package function, with that function's
+			// view of the names.
+			elems := make([]Sexp, len(args))
+			for i := range args {
+				elem, err := env.resolveDotArg(args[i])
+				if err != nil {
+					return SexpNull, err
+				}
+				elems[i] = elem
+			}
+			if name == "list" {
+				return MakeList(elems), nil
+			}
+			return env.NewSexpArray(elems), nil
 		case "hash":
 			return MakeHash(args, "hash", env)
 		case "raw":
